@@ -214,15 +214,15 @@ keeps_members!(union_keeps_every_member_3_o1, 1, 3);
 /// meet: conjoin(A, B) is a lower bound of A and of B
 const S_MEET: [Ty; 10] = [T_INT, T_ANY, T_U_INT_FLOAT, T_U_INT_STR, T_ARR_INT, T_ARR_U_INT_FLOAT, T_MUT_U_INT_FLOAT, T_MUT_U_INT_STR, T_FUN_U_INT, T_FUN_INT_U];
 macro_rules! meet_laws {
-    ($name:ident, $policy:expr) => {
+    ($name:ident, $policy:expr, $lo:expr, $hi:expr) => {
         #[kani::proof]
         #[kani::unwind(14)]
         #[kani::stub(alloc::fmt::format, crate::verif_common::stub_format)]
         pub fn $name() {
             set_order($policy);
             let ts: [Type; 10] = core::array::from_fn(|i| real(S_MEET[i]));
-            let mut i = 0;
-            while i < 10 {
+            let mut i = $lo;
+            while i < $hi {
                 let mut j = 0;
                 while j < 10 {
                     let c = ts[i].conjoin(&ts[j]);
@@ -236,8 +236,12 @@ macro_rules! meet_laws {
         }
     };
 }
-meet_laws!(meet_laws_o0, 0);
-meet_laws!(meet_laws_o1, 1);
+meet_laws!(meet_laws_a_o0, 0, 0, 4);
+meet_laws!(meet_laws_b_o0, 0, 4, 7);
+meet_laws!(meet_laws_c_o0, 0, 7, 10);
+meet_laws!(meet_laws_a_o1, 1, 0, 4);
+meet_laws!(meet_laws_b_o1, 1, 4, 7);
+meet_laws!(meet_laws_c_o1, 1, 7, 10);
 
 /// soundness for values: A matches B  =>  every witness value of A belongs to B, judged by its
 /// contents (in_ty) and by its runtime type tag (as_type().matches)
